@@ -211,9 +211,21 @@ pub fn main_locks(args: &Args) {
             models.push((name, m));
         }
     }
+    // generated models share small ids (schedules, constructions) but differ in content: anything memoised by id
+    // across computations shows up as a difference between the fresh-process result and the in-process ones
+    let scratch = args.get("--scratch").unwrap_or_else(|| "work".to_string());
     for i in 0..args.num("--generated", 6) {
         let a = crate::session::random_abstract(&mut rng, 4, i % 3 == 2);
-        models.push((format!("gen{}", i), crate::absmodel::concretize(&a)));
+        let m = crate::absmodel::concretize(&a);
+        let name = format!("gen{}", i);
+        if let Ok(js) = m.as_json() {
+            let p = std::path::Path::new(&scratch).join(format!("c05_{}.json", name));
+            if std::fs::write(&p, js).is_ok() {
+                out.push(result_event("indicators", &name, "fresh_process", fresh("--model", &p.to_string_lossy())));
+                let _ = std::fs::remove_file(&p);
+            }
+        }
+        models.push((name, m));
     }
     bemodel::verif_trace::take();
     bemodel::verif_trace::enable(true);
